@@ -65,7 +65,7 @@ TEXT["C09"] = dict(
 TEXT["C04"] = dict(
     text="Two layers, both Coq-kernel checked without axioms. (1) GCore.v transcribes gomini/unify.go branch by branch - walk, CastVar, hasCycle through reflecttools.Any, isLeaf + "
          "reflect.DeepEqual, and the descent through reflecttools.ZipReduce with the state as accumulator - over the reflecttools value model of C18; theorem C04_code_is_unify: on "
-         "pointer-shaped values (nil pointers, pointers to scalars, pointers to structs, slices, registered variable pointers) that transcription computes exactly what micro's verified "
+         "pointer-shaped values (nil pointers, pointers to scalars, pointers to structs, slices, registered variable pointers; in interface-typed fields and elements any of these or the untyped nil) that transcription computes exactly what micro's verified "
          "unify computes on the term encoding of the values, for every fuel and every state; hence C04_code_ok (earlier bindings kept; the solutions of the result are exactly the unifiers "
          "of the two values compatible with the old state: most general), C04_code_fail (failure only when no finite unifier exists), C04_code_equalo (0 or 1 state), C04_code_wf. "
          "(2) The algebraic layer on an injective encoding (variables by registration, never by placeholder contents): C04_mgu, C04_preserves, C04_resolve_equal, C04_fail, C04_total, C04_wf, "
